@@ -16,9 +16,9 @@ import (
 // urlFamily: how page i of a paginated article is addressed.
 type urlFamily struct {
 	Name string
-	Base string                // scheme://host + folder
-	URL  func(i int) string    // page i
-	Bare string                // the article without page parameter
+	Base string             // scheme://host + folder
+	URL  func(i int) string // page i
+	Bare string             // the article without page parameter
 }
 
 func famQuery(base, stem, param, extra string) urlFamily {
@@ -52,7 +52,7 @@ func randFamily(r *Rng) urlFamily {
 	case 0, 1:
 		return famQuery(base, stem, r.Pick("page", "p", "pg", "pagenum", "start", "PAGE"), "")
 	case 2:
-		return famQuery(base, stem, r.Pick("page", "p"), r.Pick("id=7", "sort=asc&id=12", "q=a%20b", "ref=home"))
+		return famQuery(base, stem, r.Pick("page", "p"), r.Pick("id=7", "sort=asc&id=12", "q=a%20b", "ref=home", "ref=/", "back=/news/", "u=http://example.com/"))
 	case 3:
 		return famPath(base, stem, r.Pick("page/", "page-", "p", ""))
 	case 4:
@@ -373,6 +373,28 @@ func checkPagingLink(link string, page *nurl.URL, targets map[string]bool) (clau
 }
 
 // ---------- correspondence payloads ----------
+
+// trimPathSlash: the URL string without the trailing slash of its path (as Model/Pagination.lean)
+func trimPathSlash(s string) string {
+	i := strings.IndexAny(s, "?#")
+	if i < 0 {
+		i = len(s)
+	}
+	return strings.TrimSuffix(s[:i], "/") + s[i:]
+}
+
+// paginationPremises: the premises of C16.number_prev_is_anchor on the implementation's data —
+// the document URL the detection works with, and its path-trimmed form that may be inserted as
+// first page, are both among the two spellings FindPagination recognises as the current page
+func paginationPremises(c *Corr, d distiller.VerifPaginationData) {
+	if !d.DocParses {
+		return
+	}
+	in := func(s string) bool { return s == d.StrPageURL || s == d.EscPageURL }
+	if !in(d.DocURL) || !in(trimPathSlash(d.DocURL)) {
+		c.premiseFailures = append(c.premiseFailures, fmt.Sprintf("document URL %q / path-trimmed %q is not one of the current-page spellings %q, %q", d.DocURL, trimPathSlash(d.DocURL), d.StrPageURL, d.EscPageURL))
+	}
+}
 
 func paginationCase(d distiller.VerifPaginationData) (payload, impl string) {
 	var sb strings.Builder
